@@ -93,6 +93,45 @@ def run(chk):
             chk.violation("manager-history", {"cfg": base_cfg, "variant": f"section '{sec}' first set to {vals}, then to the requested values, set_design again"},
                           {"design": {"ok": r_.get("ok"), "exc": r_.get("exc"), "nbh": r_.get("nbh"), "H": r_.get("H")}, "fresh_manager": {"nbh": fresh["nbh"], "H": fresh["H"]}},
                           "the design depends on the values last set, not on what was set before")
+    # the same manager object used for an earlier job that had a borehole cap of 2 (and other limits), then ALL setters called again for a job without
+    # a cap: the second design is the one a fresh manager finds
+    capj = json.loads(json.dumps(base_cfg))
+    capj["_first_configured_with"] = {"design": {"max_boreholes": 2, "max_eft": 33.0}}
+    rcap = e2e_runs([capj])[0]
+    chk.cov["evaluations"] += 1
+    if fresh.get("ok") and (not rcap.get("ok") or rcap["nbh"] != fresh["nbh"] or rcap["H"] != fresh["H"]):
+        chk.violation("manager-history", {"cfg": base_cfg, "variant": "the manager first ran a job with max_boreholes=2 (all setters), then all setters again without a cap"},
+                      {"design": {"ok": rcap.get("ok"), "exc": rcap.get("exc"), "nbh": rcap.get("nbh"), "H": rcap.get("H")}, "fresh_manager": {"nbh": fresh["nbh"], "H": fresh["H"]}},
+                      "the design depends on the values last set, not on what was set before")
+    # input files run one after the other through the command-line worker in one process: each result is that of the file run alone
+    rwa = cfg("ROWWISE", months=12, loads={"kind": "balanced", "scale": 26000.0, "seed": 5},                    # with a perimeter spacing ratio
+              geom_over={"property_boundary": [[0.0, 0.0], [48.0, 0.0], [58.0, 28.0], [30.0, 46.0], [0.0, 34.0]], "no_go_boundaries": [], "max_spacing": 12.0, "min_spacing": 5.0,
+                         "spacing_step": 1.0, "max_rotation": 10.0, "min_rotation": -10.0, "rotate_step": 5.0, "perimeter_spacing_ratio": 0.8})
+    rwb = json.loads(json.dumps(rwa))
+    rwb["geometric_constraints"].pop("perimeter_spacing_ratio")                                                # the optional key left out
+    nsq = cfg(months=12, design={"max_boreholes": 7, "continue_if_design_unmet": True})
+    nsq2 = cfg(months=12)
+    seqs = [[rwa, rwb], [nsq, nsq2]] if quick else [[rwa, rwb], [nsq, nsq2], [rwb, rwa, rwb]]
+    with ThreadPoolExecutor(max_workers=len(seqs) * 2) as ex:
+        fut = ex.submit(lambda: run_impl("e2e.py", {"mode": "cli_sequence", "sequences": seqs}, timeout=3000))
+        alone = list(ex.map(lambda c: run_impl("e2e.py", {"mode": "cli_sequence", "sequences": [[c]]}, timeout=3000), [s_[-1] for s_ in seqs]))
+        sq = fut.result()
+    if isinstance(sq, dict) and "_error" in sq:
+        chk.broken.append({"name": "command-line sequences failed in the harness", "detail": sq["_error"][-300:]})
+    else:
+        for seq, rs_, al in zip(seqs, sq, alone):
+            if isinstance(al, dict) and "_error" in al:
+                chk.broken.append({"name": "command-line run failed in the harness", "detail": al["_error"][-300:]})
+                continue
+            last, own = rs_[-1], al[0][0]
+            chk.cov["evaluations"] += 1
+            nontrivial += 1
+            if last != own and len(chk.violations) < 5:
+                chk.violation("cli-sequence", {"files_run_before_in_the_same_process": [{k: c_[k] for k in ("geometric_constraints", "design")} for c_ in seq[:-1]],
+                                               "file": {k: seq[-1][k] for k in ("geometric_constraints", "design")}},
+                              {"after_the_other_files": {k: v for k, v in last.items() if k != "borefield"}, "run_alone": {k: v for k, v in own.items() if k != "borefield"},
+                               "coordinate_tables_equal": last.get("borefield") == own.get("borefield")},
+                              "running other designs earlier in the same process does not change the design (summary values and coordinate table)")
     # one more process whose FIRST design differs from the configuration only in grout / pipe conductivity
     hist.append({"cfg": cfg(months=12, loads={"kind": "cooling", "scale": 28000.0, "seed": 9}), "order_seed": 1, "similar_first": True})
     with ThreadPoolExecutor(max_workers=NPROC) as ex:
